@@ -589,6 +589,9 @@ def provenance(fn, start, pass_through=PASS_THROUGH, follow_all_call_args=False,
             if kind == 'stmt':
                 r = node['r']
                 rv = r['rv']
+                gb = node.get('ghost_bb')
+                if gb is not None and gb in getattr(fn, 'ghost_at', {}):
+                    org.calls.append(fn.ghost_at[gb])      # inline view: this value is the result of the spliced call
                 if rv == 'binop':
                     org.binops.append((r['op'], node))
                 if rv == 'unop':
@@ -871,7 +874,7 @@ def _shift_rv(r, off):
     return q
 
 
-def _shift_block(b, loff, boff, ret_local, call_dst, call_target, call_sp):
+def _shift_block(b, loff, boff, ret_local, call_dst, call_target, call_sp, ghost_bb=None):
     nb = {'bb': b['bb'] + boff, 'cleanup': False, 'stmts': [], 'term': None}
     for st in b['stmts']:
         nb['stmts'].append({'dst': _shift_place(st['dst'], loff), 'r': _shift_rv(st['r'], loff), 'sp': st['sp']})
@@ -893,7 +896,10 @@ def _shift_block(b, loff, boff, ret_local, call_dst, call_target, call_sp):
         nt['targets'] = [[v, tg + boff] for v, tg in t['targets']]
         nt['otherwise'] = t['otherwise'] + boff
     elif k in ('return', 'Return'):
-        nb['stmts'].append({'dst': call_dst, 'r': {'rv': 'use', 'ops': [{'k': 'move', 'pl': {'l': ret_local, 'p': []}}]}, 'sp': call_sp})
+        # the assignment standing for `dst = callee(..)`; `ghost_bb` names the block of the spliced call so that a backward slice
+        # passing through here still records "result of callee" (rules recognise values by the function that produced them)
+        nb['stmts'].append({'dst': call_dst, 'r': {'rv': 'use', 'ops': [{'k': 'move', 'pl': {'l': ret_local, 'p': []}}]}, 'sp': call_sp,
+                            'ghost_bb': ghost_bb})
         nt = {'t': 'goto', 'succ': [call_target] if call_target >= 0 else [], 'sp': t['sp']}
         if call_target < 0:
             nt = {'t': 'unreachable', 'succ': [], 'sp': t['sp']}
@@ -954,7 +960,7 @@ def inline_view(prog, fn, should_inline=None, max_depth=3, max_blocks=6000):
         for gb in g.d['blocks']:
             if gb['cleanup']:
                 continue
-            nb = _shift_block(gb, loff, boff, loff, t['dst'], t['target'], t['sp'])
+            nb = _shift_block(gb, loff, boff, loff, t['dst'], t['target'], t['sp'], ghost_bb=b['bb'])
             new_blocks.append(nb)
             by_bb[nb['bb']] = nb
         b['term'] = {'t': 'goto', 'succ': [boff + 0], 'sp': t['sp'], 'inlined_call': t['callee']}
@@ -971,10 +977,12 @@ def inline_view(prog, fn, should_inline=None, max_depth=3, max_blocks=6000):
     view.origin = fn
     # the calls that were spliced stay visible (who-calls-whom rules, walks into the callee): listed in .calls, marked .inlined,
     # but not a definition of their destination — the spliced body assigns it
+    view.ghost_at = {}
     for bb, t in ghosts:
         c = Call(view, bb, t)
         c.inlined = True
         view.calls.append(c)
+        view.ghost_at[bb] = c
     view.calls.sort(key=lambda c: c.bb)
     if should_inline is None:
         fn._inline_view = view
@@ -1118,9 +1126,10 @@ def nearest_user_local(fn, operand):
     return None
 
 
-def expr_leaves(fn, operand, max_nodes=200):
+def expr_leaves(fn, operand, max_nodes=200, through=()):
     """walk the expression that computes `operand`, through compiler temporaries only: stops at user variables and
-    parameters. Returns (user_locals, consts, binop_names, calls)."""
+    parameters (except the single-assignment `let` bindings listed in `through`, e.g. `let at = i + 1`). Returns (user_locals,
+    consts, binop_names, calls)."""
     users, consts, ops, calls = set(), [], [], []
     work = [operand]
     seen = set()
@@ -1133,7 +1142,7 @@ def expr_leaves(fn, operand, max_nodes=200):
                 consts.append(o.get('v', ''))
             continue
         l = o['pl']['l']
-        if l in fn.user or fn.is_param(l):
+        if (l in fn.user or fn.is_param(l)) and not (l in through and fn.single_def(l) is not None):
             users.add(l)
             continue
         if l in seen:
